@@ -61,7 +61,7 @@ func runC01(r *Run, p *Prog) {
 					continue
 				}
 				rt := recv.Type()
-				if !(isNamed(rt, pkgVarlink, "ReadWriterContext") || isNamed(rt, pkgCtxio, "Conn") || isNamed(rt, "net", "Conn") || isNamed(rt, "io", "Writer")) {
+				if !(isNamed(rt, pkgVarlink, "ReadWriterContext") || isNamed(rt, pkgCtxio, "Conn") || isNamed(rt, "net", "Conn") || isNamed(rt, "io", "Writer") || isProtoWrite(cs)) {
 					continue
 				}
 				r.Ob("R1", shortName(f), "connection write "+name+" on "+strip(T.T(recv)), cs.Instr.Pos(), wset[cs.Instr],
